@@ -69,6 +69,21 @@ CHECKS = {
         technique="TLA+ protocol state machine, TLC-generated behaviours replayed into the real assemblers",
         engine="assembler",
     ),
+    "C18": dict(
+        category="fault_enumeration",
+        text="FsStore.tla models the staging-file/rename protocol with one action per filesystem operation (= per verif "
+             "hook point), concurrent writers and readers, process crash and injected operation failures as environment "
+             "actions; TLC checks AtomicVisibility, ReaderSeesAbsentOrComplete, AckedIsVisible, UsableAfterCrash and "
+             "CommittedStays over every interleaving, and emits every behaviour. The harness forces each behaviour through "
+             "the real store with blocking hooks (one thread runs between two hooks), kills or fails the operation the "
+             "specification says, and compares staging files, destination files and directories with the specification's "
+             "state after every step, every read result and every return value.",
+        design_ref="DESIGN.md section 4, C18",
+        note="2-3 writers, 1 reader, <= 1 crash, <= 1 fault per behaviour; crash = threads abandoned at the hook (in-process); "
+             "no fsync / power-loss modelling (outside the property); trusted: TLC, the hook placement.",
+        technique="TLA+ model of the write protocol; TLC-generated crash/fault/schedule behaviours forced through the real store via hooks",
+        engine="tlc+vh",
+    ),
 }
 
 NOT_YET = "check not built yet in this round (planned, see DESIGN.md section 4)"
@@ -98,7 +113,7 @@ def main():
             "guard": "verif",
             "enable": "go build -tags verif (the harness module replaces github.com/ipld/go-ipld-prime with /repo)",
             "baseline_off_cmd": "cd /repo && GOFLAGS=-mod=mod go test -vet=off -count=1 -timeout 25m ./...",
-            "source_commits": [],
+            "source_commits": ["0ae6174"],
             "add_only": True,
         },
         "engines": [
